@@ -22,7 +22,7 @@ COLWISE = {"smoothness", "simplex", "soft_sparsity", "monotone_inc", "monotone_d
 CONVEX = {"non_negative", "soft", "l2_square", "l2", "smoothness", "simplex", "monotone_inc", "monotone_dec", "svt"}
 # projections whose second application is also put under the correspondence (two-step call sequence: the implementation's own output is fed back,
 # through the same route / keyword arguments, and compared with the model on that input; cf. C12_proximal_operator_idempotent)
-SECOND = {"non_negative", "simplex", "monotone_inc", "monotone_dec", "hard", "normalized_sparsity", "normalize"}
+SECOND = {"non_negative", "simplex", "monotone_inc", "monotone_dec", "hard", "normalized_sparsity", "normalize", "soft_sparsity"}
 PROJECTION = {"non_negative", "simplex", "monotone_inc", "monotone_dec", "hard", "soft_sparsity", "unimodality", "normalized_sparsity", "normalize", "procrustes"}
 
 
@@ -430,7 +430,11 @@ def clf_inside_l1_ball(f):
     if inp.get("op") != "soft_sparsity" or f["predicate"] not in ("soft_sparsity_optimal", "soft_sparsity_idempotent") or not model_agrees(f):
         return False
     a = np.asarray(inp["tensor"], float); m = a.reshape(a.shape[0], -1)
-    return bool((np.abs(m).sum(axis=0) <= inp["param"] * (1 + 1e-12)).any())
+    inside = np.abs(m).sum(axis=0) <= inp["param"] * (1 + 1e-12)
+    if f["predicate"] == "soft_sparsity_idempotent":
+        # not idempotent only for a column inside the ball with a zero entry (C12_l1ball_idempotent_refuted); elsewhere C12_l1ball_idempotent holds
+        return bool(any(inside[j] and np.any(m[:, j] == 0) for j in range(m.shape[1])))
+    return bool(inside.any())
 
 
 def clf_maxnorm(f):
@@ -830,8 +834,29 @@ def route_label(route):
     return "spec" if isinstance(route, dict) else route
 
 
+def l1ball_idempotent_class(a, par):
+    """every column lies on or outside the l1 ball or has no zero entry (the hypothesis of C12_l1ball_idempotent)"""
+    m = np.asarray(a, float); m = m.reshape(m.shape[0], -1)
+    return bool(all(float(np.abs(m[:, j]).sum()) >= float(par) or not np.any(m[:, j] == 0) for j in range(m.shape[1])))
+
+
+def smooth_nd_fails(par, a, out):
+    """smoothness_prox on a tensor with three or more dimensions, the code as it is: every shape[-2] x shape[-1] slice of the output solves the coded
+    tridiagonal system along axis -2 (independent of the Coq model)"""
+    a = np.asarray(a, float); q = a.shape[-1]
+    if not isinstance(out, np.ndarray) or out.size != a.size or not np.all(np.isfinite(out)):
+        return [("finite_same_size", f"output is not a finite array of the input's size: {str(out)[:80]}")]
+    for sl_in, sl_out in zip(a.reshape(-1, a.shape[-2], q), np.asarray(out, float).reshape(-1, a.shape[-2], q)):
+        r = smooth_matrix(a.shape[-2], float(par)) @ sl_out - sl_in
+        if np.max(np.abs(r)) > 1e-9 * max(float(np.max(np.abs(a))), 1e-300) * (1 + 4 * abs(float(par))):
+            return [("smoothness_nd_system", f"a slice of the output does not solve the coded tridiagonal system along axis -2: residual {float(np.max(np.abs(r)))!r}")]
+    return []
+
+
 def predicates(name, par, a, out, route, rng, firm_rounds=1):
     """all property predicates on one implementation output -> list of (predicate id, message)"""
+    if name == "smoothness" and np.asarray(a).ndim > 2:
+        return smooth_nd_fails(par, a, out)
     if name == "identity":
         same = isinstance(out, np.ndarray) and out.shape == np.asarray(a).shape and np.array_equal(out, a)
         return [] if same else [("identity_unchanged", "no constraint is registered for the selected mode but the tensor was changed")]
@@ -841,7 +866,11 @@ def predicates(name, par, a, out, route, rng, firm_rounds=1):
         # (monotonicity_prox / unimodality_prox return an (n, 1) column for a 1-D input: accepted as the same point)
         return [(name + "_feasible", f"output has shape {out.shape}, the input {a_shape}: not a point of the input's space")]
     fails = check_svd_output(name, par, a, out, rng) if name in ("svt", "procrustes") else check_output(name, par, a, out, rng)
-    if not fails and name in PROJECTION:
+    # (l1-ball operator: C12_l1ball_idempotent - the second application fixes the first result for every column on / outside the ball or free of
+    # zeros, also when the first application is the known not-a-projection move of a column inside the ball; only a column inside the ball WITH a
+    # zero entry is outside that statement, C12_l1ball_idempotent_refuted)
+    l1_idem = (name == "soft_sparsity" and fails and all(p == "soft_sparsity_optimal" for p, _ in fails) and l1ball_idempotent_class(a, par))
+    if (not fails or l1_idem) and name in PROJECTION:
         m = check_idempotent(name, par, route, out)
         if m:
             fails.append((name + "_idempotent", m))
@@ -894,11 +923,8 @@ def evaluate(chk, name, par, a, route, kind, klass, rng, cases, meta):
             outv = a if st != "ok" else np.asarray(out)
             if outv.size == a.size and np.all(np.isfinite(outv)):
                 if st == "ok":
-                    for sl_in, sl_out in zip(a.reshape(-1, a.shape[-2], q), np.asarray(outv, float).reshape(-1, a.shape[-2], q)):
-                        r = smooth_matrix(a.shape[-2], float(par)) @ sl_out - sl_in
-                        if np.max(np.abs(r)) > 1e-9 * max(float(np.max(np.abs(a))), 1e-300) * (1 + 4 * abs(float(par))):
-                            chk.finding(ep, inputs, f"a slice of the output does not solve the coded tridiagonal system along axis -2: residual {float(np.max(np.abs(r)))!r}",
-                                        "smoothness_nd_system", observed=outv); break
+                    for pred, msg in smooth_nd_fails(par, a, outv):
+                        chk.finding(ep, inputs, msg, pred, observed=outv)
                 atol, rtol = tolerances(name, par, a, kind)
                 cid = len(cases)
                 cases.append(f"(({cid})%Z, {op_lit(name, par, a, None, route, raised=(st != 'ok'))}, {rows_lit(a.reshape(-1, q), a.size // q)}, {rows_lit(np.asarray(outv).reshape(-1, q), a.size // q)}, {C.q(atol)}, {C.q(rtol)})")
@@ -932,7 +958,7 @@ def evaluate(chk, name, par, a, route, kind, klass, rng, cases, meta):
         if cid % 401 == 0:
             chk.sample({"operator": name, "route": C.jsonable(route), "param": C.jsonable(par), "input": np.asarray(a).tolist(), "output": out.tolist(),
                         "comparison": "exact" if atol == 0 else "toleranced"})
-        if name in SECOND and klass != "second" and not fails and rng.random() < 0.15:
+        if name in SECOND and klass != "second" and (not fails or (name == "soft_sparsity" and l1ball_idempotent_class(a, par))) and rng.random() < 0.15:
             b = np.asarray(out, float).reshape(a.shape)
             if in_domain(name, par, b):
                 evaluate(chk, name, par, b, route, "float", "second", rng, cases, meta)
@@ -1071,6 +1097,8 @@ def neighbourhood_search(chk, inp, rng):
         if not in_domain(name, par, b):
             continue
         st, out = C.call_impl(impl_call, name, b, par, route, timeout=60)
+        if st != "ok" and name == "smoothness" and b.ndim > 2 and b.shape[-2] != b.shape[0] and str(out).startswith("ValueError"):
+            continue
         if st != "ok":
             if out != "timeout":
                 chk.finding(ep, {"op": name, "tensor": b, "param": par, "route": route}, f"the operator raised on a valid input: {out}", name + "_feasible")
@@ -1087,6 +1115,9 @@ def replay(payload):
     rng = random.Random(0)
     C.reset_backends()
     st, out = C.call_impl(impl_call, name, a, par, route, timeout=120)
+    if st != "ok" and name == "smoothness" and a.ndim > 2:
+        refused_as_coded = a.shape[-2] != a.shape[0] and str(out).startswith("ValueError")
+        print("replay: smoothness on", a.shape, "raised", out, "->", "as the code documents" if refused_as_coded else "still failing"); return 0 if refused_as_coded else 1
     if st != "ok":
         print("replay: raised", out); return 1
     fails = predicates(name, par, a, np.asarray(out), route, rng, firm_rounds=20)
